@@ -282,3 +282,26 @@ def check(run, prog, tier):
     run.rule("C07-h", "compile-time resolution of a called name looks at the identifier's function_num first (a function of the program being compiled), then simul_efuns and efuns; free_unused_identifiers() at the end of every compilation resets that binding for permanent identifiers (the dirty list) on every path, so a program that redefines an efun name cannot make the next program's call of that efun a local call into its own function table", 3)
     import rules.identreset as identreset
     identreset.check(run, prog, "C07-h", "the next program's call of a redefined efun name is compiled as a local call to whatever function sits in that slot (possibly static/private)")
+
+    # ---- C07-i an object's program is swapped only while no function pointer indexes into it
+    run.rule("C07-i", "a local function pointer stores a run-time index into its owner's current program and counts itself in program_t.func_ref; the program of an existing object is re-pointed (`X->prog = other` outside object creation) only on a path where the old program's func_ref was tested to be 0 at that moment - a test made when the request was queued does not cover pointers made since", 1)
+    ni_ = 0
+    for f in sorted(prog.functions(), key=lambda x: (x.file, x.line)):
+        stores = [(b, i, n) for b, i, n in f.nodes() if n.get("k") == "Asg" and n.get("op") == "=" and strip(n["L"]).get("k") == "Mem" and strip(n["L"]).get("f") == "prog" and strip(n["L"]).get("rec") == "object_s" and strip(n["L"]).get("a") and const_val(n["R"]) != 0]
+        if not stores or any(True for _ in f.calls("get_empty_object")):
+            continue        # creation: the object is new, nothing can point into it yet
+        for j, (b, i, n) in enumerate(stores):
+            ni_ += 1
+            run.saw(f)
+            tested = False
+            for c, t, B in cfgq.guards(f, b.id):
+                e, tt = normalize_cond(c, t)
+                e = strip(e)
+                if not tt and any(y.get("k") == "Mem" and y.get("f") == "func_ref" for y in walk(e)) and (e.get("k") == "Mem" or (e.get("k") == "Bin" and e.get("op") in ("!=", ">") and const_val(e["R"]) == 0)):
+                    tested = True
+                if tt and e.get("k") == "Bin" and e.get("op") == "==" and const_val(e["R"]) == 0 and any(y.get("k") == "Mem" and y.get("f") == "func_ref" for y in walk(e["L"])):
+                    tested = True
+            run.ob("C07-i", "swap:%s:%d" % (f.name, j), tested, "`%s` is reached only with func_ref of the old program 0" % show(n)[:50] if tested else
+                   "`%s` (line %s) replaces the program of a live object without a test of the old program's func_ref on the way: a function pointer made since the request keeps its index and calls whatever function has that index in the new program" % (show(n)[:50], n.get("l")),
+                   f.file, n.get("l"), f.name, what="%s swaps an object's program while function pointers index into the old one" % f.name)
+    run.need(ni_ >= 1, "re-pointing stores to object_t.prog (found %d)" % ni_)
